@@ -1,9 +1,334 @@
-(* C13 - placeholder while the pipeline is brought up; replaced by the full statement list. *)
-From Coq Require Import Reals List.
-From LibaV Require Import Common.NumOps Common.ROps C13.MfDefs.
+(* C13 - Membership functions, fuzzy operators and gain scheduling stay within range.
+   Models: C13/MfDefs.v (src/mf.c, include/a/fuzzy.h, src/fuzzy.c) and C13/FuzzyDefs.v (src/pid_fuzzy.c on top of
+   C12/PidDefs.v), as the code is after the three fix: commits (lins/linz at x = a = b, tri at b = c, zero joint membership
+   sum).  Proofs: C13/MfProofs.v, MfCont.v, MfExtra.v, OprProofs.v, FuzzyLimits.v, FuzzyProofs.v, FuzzyGains.v;
+   non-vacuity: C13/Examples.v.  All theorems are over Coq's reals, instance R13_ops (C13/R13Ops.v: exp is Coq's exp,
+   pow is the real power function Rpow).  Rounding is not part of the statements; the binary64 instance of the same
+   terms is compared bit for bit with the C by checks/C13.py.
+
+   Not proved (reported as missing, no statement weakened silently):
+   * monotone flanks of the product of sigmoids for slopes of opposite sign (the bump-shaped use): the position of the
+     peak has no closed form; psig is covered for slopes of equal sign, dsig under its precondition (peak at the midpoint
+     of the centres);
+   * S and Z at zero width (a = b) are outside the property's quantifier; C13_sz_zero_width states what the code does. *)
+From Coq Require Import Reals ZArith List Bool.
+From LibaV Require Import Common.NumOps Common.ROps C12.PidDefs C13.R13Ops C13.MfDefs C13.FuzzyDefs
+  C13.MfProofs C13.MfCont C13.MfExtra C13.OprProofs C13.FuzzyLimits C13.FuzzyProofs C13.FuzzyGains.
 Import ListNotations.
 Local Open Scope R_scope.
 
-Theorem C13_mf_dispatch_tri : forall x a b c d, mf R_ops 8 x [a; b; c; d] = Some (mf_tri R_ops x a b c).
-Proof. exact (fun x a b c d => eq_refl). Qed.
-Print Assumptions C13_mf_dispatch_tri.
+Local Notation RO := R13_ops.
+
+(* ============================================================ membership functions *)
+(* every value lies in [0,1], for every x and EVERY parameter tuple; the difference of sigmoids under equal slopes and
+   centres ordered with the sign of the slope *)
+Theorem C13_mf_range :
+  (forall x s c, 0 < mf_gauss RO x s c <= 1) /\
+  (forall x s1 c1 s2 c2, 0 < mf_gauss2 RO x s1 c1 s2 c2 <= 1) /\
+  (forall x a b c, 0 < mf_gbell RO x a b c <= 1) /\
+  (forall x a c, 0 < mf_sig RO x a c < 1) /\
+  (forall x a c1 c2, (0 <= a /\ c1 <= c2) \/ (a <= 0 /\ c2 <= c1) -> 0 <= mf_dsig RO x a c1 a c2 < 1) /\
+  (forall x a1 c1 a2 c2, 0 < mf_psig RO x a1 c1 a2 c2 < 1) /\
+  (forall x a b c d, 0 <= mf_trap RO x a b c d <= 1) /\
+  (forall x a b c, 0 <= mf_tri RO x a b c <= 1) /\
+  (forall x a b, 0 <= mf_lins RO x a b <= 1) /\
+  (forall x a b, 0 <= mf_linz RO x a b <= 1) /\
+  (forall x a b, 0 <= mf_s RO x a b <= 1) /\
+  (forall x a b, 0 <= mf_z RO x a b <= 1) /\
+  (forall x a b c d, 0 <= mf_pi RO x a b c d <= 1).
+Proof. exact mf_range_each. Qed.
+Print Assumptions C13_mf_range.
+
+(* the same through the generic dispatcher a_mf, for every tag *)
+Theorem C13_mf_dispatch_range : forall e x ps y,
+  mf RO e x ps = Some y -> (e = 5%nat -> dsig_ok ps) -> 0 <= y <= 1.
+Proof. exact mf_unit. Qed.
+Print Assumptions C13_mf_dispatch_range.
+
+(* without the ordering the difference of sigmoids is negative somewhere: the precondition is needed *)
+Theorem C13_dsig_unordered_refuted : exists x a c1 c2, 0 < a /\ c2 < c1 /\ mf_dsig RO x a c1 a c2 < 0.
+Proof. exact dsig_unordered_negative. Qed.
+Print Assumptions C13_dsig_unordered_refuted.
+
+(* every division executed has a non-zero denominator and every pow stays inside its real domain (so that the range
+   statements are not artefacts of x/0 = 0 in R): unconditional for the piecewise families - shoulders a = b included -
+   and under non-zero width for the smooth ones *)
+Theorem C13_mf_defined :
+  (forall x a b c d, trap_defined x a b c d) /\ (forall x a b c, tri_defined x a b c) /\
+  (forall x a b, lins_defined x a b) /\ (forall x a b, s_defined x a b) /\ (forall x a b, z_defined x a b) /\
+  (forall x a b c d, pi_defined x a b c d) /\
+  (forall x s c, gauss_defined x s c <-> s <> 0) /\
+  (forall x s1 c1 s2 c2, s1 <> 0 -> s2 <> 0 -> gauss2_defined x s1 c1 s2 c2) /\
+  (forall x a b c, a <> 0 -> 0 <= b -> gbell_defined x a b c) /\
+  (forall x a c, 1 < exp ((c - x) * a) + 1).
+Proof. exact mf_defined_each. Qed.
+Print Assumptions C13_mf_defined.
+
+(* exactly 1 on the core *)
+Theorem C13_mf_core :
+  (forall s c, mf_gauss RO c s c = 1) /\
+  (forall x s1 c1 s2 c2, c1 <= x <= c2 -> mf_gauss2 RO x s1 c1 s2 c2 = 1) /\
+  (forall a b c, 0 < b -> mf_gbell RO c a b c = 1) /\
+  (forall x a b c d, b <= x <= c -> mf_trap RO x a b c d = 1) /\
+  (forall a b c, mf_tri RO b a b c = 1) /\
+  (forall x a b, a <= b -> b <= x -> mf_lins RO x a b = 1) /\
+  (forall x a b, x < a \/ (x <= a /\ a < b) -> mf_linz RO x a b = 1) /\
+  (forall x a b, a < b -> b <= x -> mf_s RO x a b = 1) /\
+  (forall x a b, x <= a -> a < b -> mf_z RO x a b = 1) /\
+  (forall x a b c d, b <= x <= c -> mf_pi RO x a b c d = 1).
+Proof. exact mf_core_each. Qed.
+Print Assumptions C13_mf_core.
+
+(* exactly 0 outside the support *)
+Theorem C13_mf_support :
+  (forall x a b c d, a <= b -> b <= c -> c <= d ->
+     (x < a \/ (x <= a /\ a < b) \/ d < x \/ (d <= x /\ c < d)) -> mf_trap RO x a b c d = 0) /\
+  (forall x a b c, a <= b -> b <= c ->
+     (x < a \/ (x <= a /\ a < b) \/ c < x \/ (c <= x /\ b < c)) -> mf_tri RO x a b c = 0) /\
+  (forall x a b, x < a \/ (x <= a /\ a < b) -> mf_lins RO x a b = 0) /\
+  (forall x a b, a <= b -> b <= x -> mf_linz RO x a b = 0) /\
+  (forall x a b, x <= a -> a <= b -> mf_s RO x a b = 0) /\
+  (forall x a b, a <= b -> b <= x -> mf_z RO x a b = 0) /\
+  (forall x a b c d, a <= b -> c <= d -> b <= c ->
+     (x <= a /\ a < b \/ x < a \/ d <= x /\ c < d \/ d < x) -> mf_pi RO x a b c d = 0).
+Proof. exact mf_support_each. Qed.
+Print Assumptions C13_mf_support.
+
+(* continuous at every real x (hence the adjacent pieces agree at every breakpoint) when the widths are non-zero *)
+Theorem C13_mf_continuous :
+  (forall s c, continuity (fun x => mf_gauss RO x s c)) /\
+  (forall s1 c1 s2 c2, c1 <= c2 -> continuity (fun x => mf_gauss2 RO x s1 c1 s2 c2)) /\
+  (forall a b c, a <> 0 -> 0 < b -> continuity (fun x => mf_gbell RO x a b c)) /\
+  (forall a c, continuity (fun x => mf_sig RO x a c)) /\
+  (forall a1 c1 a2 c2, continuity (fun x => mf_dsig RO x a1 c1 a2 c2)) /\
+  (forall a1 c1 a2 c2, continuity (fun x => mf_psig RO x a1 c1 a2 c2)) /\
+  (forall a b c d, a < b -> b <= c -> c < d -> continuity (fun x => mf_trap RO x a b c d)) /\
+  (forall a b c, a < b -> b < c -> continuity (fun x => mf_tri RO x a b c)) /\
+  (forall a b, a < b -> continuity (fun x => mf_lins RO x a b)) /\
+  (forall a b, a < b -> continuity (fun x => mf_linz RO x a b)) /\
+  (forall a b, a < b -> continuity (fun x => mf_s RO x a b)) /\
+  (forall a b, a < b -> continuity (fun x => mf_z RO x a b)) /\
+  (forall a b c d, a < b -> b <= c -> c < d -> continuity (fun x => mf_pi RO x a b c d)).
+Proof. exact mf_continuous_each. Qed.
+Print Assumptions C13_mf_continuous.
+
+(* monotone on each flank *)
+Theorem C13_mf_flanks :
+  (forall x y s c, (x <= y <= c -> mf_gauss RO x s c <= mf_gauss RO y s c) /\ (c <= x <= y -> mf_gauss RO y s c <= mf_gauss RO x s c)) /\
+  (forall x y s1 c1 s2 c2, c1 <= c2 ->
+     (x <= y <= c1 -> mf_gauss2 RO x s1 c1 s2 c2 <= mf_gauss2 RO y s1 c1 s2 c2) /\
+     (c2 <= x <= y -> mf_gauss2 RO y s1 c1 s2 c2 <= mf_gauss2 RO x s1 c1 s2 c2)) /\
+  (forall x y a b c, a <> 0 -> 0 < b -> Rabs (x - c) <= Rabs (y - c) -> mf_gbell RO y a b c <= mf_gbell RO x a b c) /\
+  (forall x y a c, x <= y -> (0 <= a -> mf_sig RO x a c <= mf_sig RO y a c) /\ (a <= 0 -> mf_sig RO y a c <= mf_sig RO x a c)) /\
+  (forall x y a c1 c2, (0 <= a /\ c1 <= c2) \/ (a <= 0 /\ c2 <= c1) ->
+     (x <= y <= (c1 + c2) / 2 -> mf_dsig RO x a c1 a c2 <= mf_dsig RO y a c1 a c2) /\
+     ((c1 + c2) / 2 <= x <= y -> mf_dsig RO y a c1 a c2 <= mf_dsig RO x a c1 a c2)) /\
+  (forall x y a1 c1 a2 c2, x <= y ->
+     (0 <= a1 -> 0 <= a2 -> mf_psig RO x a1 c1 a2 c2 <= mf_psig RO y a1 c1 a2 c2) /\
+     (a1 <= 0 -> a2 <= 0 -> mf_psig RO y a1 c1 a2 c2 <= mf_psig RO x a1 c1 a2 c2)) /\
+  (forall x y a b c d, b <= c ->
+     (x <= y <= b -> mf_trap RO x a b c d <= mf_trap RO y a b c d) /\ (c <= x <= y -> mf_trap RO y a b c d <= mf_trap RO x a b c d)) /\
+  (forall x y a b c,
+     (x <= y <= b -> mf_tri RO x a b c <= mf_tri RO y a b c) /\ (b <= x <= y -> mf_tri RO y a b c <= mf_tri RO x a b c)) /\
+  (forall x y a b, x <= y -> mf_lins RO x a b <= mf_lins RO y a b /\ mf_linz RO y a b <= mf_linz RO x a b) /\
+  (forall x y a b, a < b -> x <= y -> mf_s RO x a b <= mf_s RO y a b /\ mf_z RO y a b <= mf_z RO x a b) /\
+  (forall x y a b c d, b <= c ->
+     (a < b -> x <= y <= b -> mf_pi RO x a b c d <= mf_pi RO y a b c d) /\
+     (c < d -> c <= x <= y -> mf_pi RO y a b c d <= mf_pi RO x a b c d)).
+Proof. exact mf_flanks_each. Qed.
+Print Assumptions C13_mf_flanks.
+
+(* the rising/falling ramps are complementary for ALL x, a, b (a = b included); S and Z whenever the width is non-zero *)
+Theorem C13_mf_complement :
+  (forall x a b, mf_lins RO x a b + mf_linz RO x a b = 1) /\
+  (forall x a b, a < b -> mf_s RO x a b + mf_z RO x a b = 1).
+Proof. exact mf_complement_each. Qed.
+Print Assumptions C13_mf_complement.
+
+(* what the code does at the single point x = a = b of a zero-width S/Z pair (outside the property's quantifier) *)
+Theorem C13_sz_zero_width : forall a, mf_s RO a a a + mf_z RO a a a = 0.
+Proof. exact s_z_degenerate. Qed.
+Print Assumptions C13_sz_zero_width.
+
+(* pi is S, 1, Z glued and gauss2 is gauss, 1, gauss glued *)
+Theorem C13_mf_glue :
+  (forall x a b c d, mf_pi RO x a b c d = if Rltb x b then mf_s RO x a b else if Rltb c x then mf_z RO x c d else 1) /\
+  (forall x s1 c1 s2 c2, mf_gauss2 RO x s1 c1 s2 c2 =
+     if Rltb x c1 then mf_gauss RO x s1 c1 else if Rltb c2 x then mf_gauss RO x s2 c2 else 1).
+Proof. exact mf_glue_each. Qed.
+Print Assumptions C13_mf_glue.
+
+(* the documented closed form of the gaussian *)
+Theorem C13_gauss_closed_form : forall x sigma c, sigma <> 0 -> mf_gauss RO x sigma c = exp (- (x - c) ^ 2 / (2 * sigma ^ 2)).
+Proof. exact gauss_closed. Qed.
+Print Assumptions C13_gauss_closed_form.
+
+(* the generic dispatcher returns the value of the specific function for all 13 tags, 0 for every other tag, and reads
+   exactly the parameters of that function *)
+Theorem C13_mf_dispatch : forall e x a0 a1 a2 a3 rest,
+  mf RO e x (a0 :: a1 :: a2 :: a3 :: rest) = Some (mf_by_tag e x a0 a1 a2 a3).
+Proof. exact mf_dispatch. Qed.
+Print Assumptions C13_mf_dispatch.
+
+Theorem C13_mf_dispatch_reads : forall e x a, mf RO e x a = None <-> (length a < mf_arity e)%nat.
+Proof. exact mf_reads_arity. Qed.
+Print Assumptions C13_mf_dispatch_reads.
+
+(* the code AS FOUND (before the fix: commits): the ramp divided 0 by 0 at x = a = b, the right-angled triangle was 0 at
+   its peak; elsewhere the repaired functions agree with the ones found *)
+Theorem C13_lins_as_found_refuted : exists x a b, a <= b /\ ~ lins_orig_defined x a b.
+Proof. exact lins_orig_undefined. Qed.
+Print Assumptions C13_lins_as_found_refuted.
+
+Theorem C13_tri_as_found_refuted : exists x a b c, a <= b <= c /\ x = b /\ mf_tri_orig RO x a b c = 0.
+Proof. exact tri_orig_refuted. Qed.
+Print Assumptions C13_tri_as_found_refuted.
+
+Theorem C13_repairs_conservative :
+  (forall x a b, a < b -> mf_lins_orig RO x a b = mf_lins RO x a b /\ mf_linz_orig RO x a b = mf_linz RO x a b) /\
+  (forall x a b c, b < c -> mf_tri_orig RO x a b c = mf_tri RO x a b c).
+Proof. exact repairs_conservative. Qed.
+Print Assumptions C13_repairs_conservative.
+
+(* ============================================================ operators on [0,1]^2 *)
+(* intersections: values in [0,1], commutative, monotone in each argument, below min, a cap 1 = a, a cap 0 = 0 *)
+Theorem C13_cap_operators : is_cap (fuzzy_cap RO) /\ is_cap (fuzzy_cap_algebra RO) /\ is_cap (fuzzy_cap_bounded RO).
+Proof. exact cap_operators. Qed.
+Print Assumptions C13_cap_operators.
+
+(* unions: values in [0,1], commutative, monotone in each argument, above max, a cup 0 = a, a cup 1 = 1 *)
+Theorem C13_cup_operators : is_cup (fuzzy_cup RO) /\ is_cup (fuzzy_cup_algebra RO) /\ is_cup (fuzzy_cup_bounded RO).
+Proof. exact cup_operators. Qed.
+Print Assumptions C13_cup_operators.
+
+(* equilibrium operator: in [0,1], commutative, monotone, between the algebraic product and the algebraic sum, below
+   max, boundary cases, both square roots applied to non-negative arguments *)
+Theorem C13_equ_operator :
+  (forall a b, unit a -> unit b -> unit (fuzzy_equ RO a b)) /\
+  (forall a b, fuzzy_equ RO a b = fuzzy_equ RO b a) /\
+  (forall a a' b, unit a -> unit a' -> unit b -> a <= a' -> fuzzy_equ RO a b <= fuzzy_equ RO a' b) /\
+  (forall a b b', unit a -> unit b -> unit b' -> b <= b' -> fuzzy_equ RO a b <= fuzzy_equ RO a b') /\
+  (forall a b, unit a -> unit b -> fuzzy_cap_algebra RO a b <= fuzzy_equ RO a b <= fuzzy_cup_algebra RO a b) /\
+  (forall a b, unit a -> unit b -> fuzzy_equ RO a b <= Rmax a b) /\
+  (forall a, unit a -> fuzzy_equ RO a 0 = 0 /\ fuzzy_equ RO 0 a = 0 /\ fuzzy_equ RO 1 1 = 1) /\
+  (forall a b, unit a -> unit b -> equ_defined a b).
+Proof. exact equ_operator. Qed.
+Print Assumptions C13_equ_operator.
+
+(* the parametrised equilibrium operator a_fuzzy_equ_(gamma, a, b), gamma in [0,1] *)
+Theorem C13_equ_gamma : forall g a b, unit a -> unit b -> 0 <= g <= 1 ->
+  a * b <= fuzzy_equ_ RO g a b <= a + b - a * b /\
+  pow_defined (a * b) (1 - g) /\ pow_defined (1 - (1 - a) * (1 - b)) g.
+Proof. exact equg_spec. Qed.
+Print Assumptions C13_equ_gamma.
+
+Theorem C13_equ_gamma_half : forall a b, unit a -> unit b -> fuzzy_equ_ RO (/ 2) a b = fuzzy_equ RO a b.
+Proof. exact equg_half. Qed.
+Print Assumptions C13_equ_gamma_half.
+
+(* complement and De Morgan duality *)
+Theorem C13_complement :
+  (forall a, unit a -> unit (fuzzy_not RO a)) /\ (forall a, fuzzy_not RO (fuzzy_not RO a) = a) /\
+  (forall a b, fuzzy_cup RO a b = fuzzy_not RO (fuzzy_cap RO (fuzzy_not RO a) (fuzzy_not RO b))) /\
+  (forall a b, fuzzy_cup_algebra RO a b = fuzzy_not RO (fuzzy_cap_algebra RO (fuzzy_not RO a) (fuzzy_not RO b))) /\
+  (forall a b, fuzzy_cup_bounded RO a b = fuzzy_not RO (fuzzy_cap_bounded RO (fuzzy_not RO a) (fuzzy_not RO b))).
+Proof. exact complement_operator. Qed.
+Print Assumptions C13_complement.
+
+(* a_pid_fuzzy_opr: the selector, and what holds of whatever it returns for ANY enumerator value *)
+Theorem C13_opr_dispatch : forall k, fuzzy_opr RO k =
+  match k with 1 => fuzzy_cap RO | 2 => fuzzy_cap_algebra RO | 3 => fuzzy_cap_bounded RO
+             | 4 => fuzzy_cup RO | 5 => fuzzy_cup_algebra RO | 6 => fuzzy_cup_bounded RO | _ => fuzzy_equ RO end%nat.
+Proof. exact opr_dispatch. Qed.
+Print Assumptions C13_opr_dispatch.
+
+Theorem C13_opr_all : forall k,
+  (forall a b, unit a -> unit b -> unit (fuzzy_opr RO k a b)) /\
+  (forall a b, fuzzy_opr RO k a b = fuzzy_opr RO k b a) /\
+  (forall a a' b, unit a -> unit a' -> unit b -> a <= a' -> fuzzy_opr RO k a b <= fuzzy_opr RO k a' b) /\
+  (forall a b b', unit a -> unit b -> unit b' -> b <= b' -> fuzzy_opr RO k a b <= fuzzy_opr RO k a b').
+Proof. exact opr_all. Qed.
+Print Assumptions C13_opr_all.
+
+(* ============================================================ gain scheduling (a_pid_fuzzy_out_) *)
+(* For every controller whose scratch block has the documented size for nfuzz (sized), whose rule bases are
+   nrule x nrule (rules_ok), whose tables obey the difference-of-sigmoids precondition (table_ok), and every pair of
+   inputs with at most nfuzz active sets each (ae / aec = the sets whose membership exceeds A_REAL_EPSILON, as recorded by
+   a_pid_fuzzy_mf): the call succeeds - no access outside idx[2n] / val[n(n+2)] / the rule bases, all of which are
+   bounds-checked in the model - the block keeps its size, the set-up is untouched, and each gain g satisfies gain_spec:
+   EITHER both inputs have active sets and the joint membership sum is positive (fires), the weights are non-negative,
+   the divisor is non-zero, g = base + (sum of w_ij * m_ij) * (1 / sum of w_ij), and base + lo <= g <= base + hi for any
+   bounds lo <= m_ij <= hi on the consequents of the active rules; OR no rule fires / the rule base is NULL and g = base. *)
+Theorem C13_gains : forall s ec e ae aec,
+  sized s -> rules_ok s -> table_ok (nrule s) (me s) -> table_ok (nrule s) (mec s) ->
+  walk_spec (nrule s) 0 e (me s) = Some ae -> walk_spec (nrule s) 0 ec (mec s) = Some aec ->
+  (length ae <= nfuzz s)%nat -> (length aec <= nfuzz s)%nat ->
+  exists s', fuzzy_out_ RO s ec e = Ok s' /\ sized s' /\ same_setup s s' /\
+    gain_spec s (mkp s) ae aec (bkp s) (kp (fpid s')) /\
+    gain_spec s (mki s) ae aec (bki s) (ki (fpid s')) /\
+    gain_spec s (mkd s) ae aec (bkd s) (kd (fpid s')) /\
+    sum (fpid s') = sum (fpid s) /\ out (fpid s') = out (fpid s) /\ err (fpid s') = err (fpid s).
+Proof. exact fuzzy_out_spec. Qed.
+Print Assumptions C13_gains.
+
+(* the scratch clause on its own (no precondition on the tables): idx and val together are exactly
+   A_PID_FUZZY_BFUZZ(nfuzz) bytes, val starts where a_pid_fuzzy_set_bfuzz puts it, and no access leaves them *)
+Theorem C13_scratch_in_bounds : forall s ec e ae aec,
+  sized s -> rules_ok s ->
+  walk_spec (nrule s) 0 e (me s) = Some ae -> walk_spec (nrule s) 0 ec (mec s) = Some aec ->
+  (length ae <= nfuzz s)%nat -> (length aec <= nfuzz s)%nat ->
+  exists s', fuzzy_out_ RO s ec e = Ok s' /\ sized s' /\
+    (length (sidx (sc s')) * 4 + length (sval (sc s')) * 8 = bfuzz_bytes (nfuzz s))%nat /\
+    val_offset (nfuzz s) = (length (sidx (sc s')) * 4)%nat.
+Proof. exact scratch_in_bounds. Qed.
+Print Assumptions C13_scratch_in_bounds.
+
+(* the recorded memberships are in (0,1] and the recorded indices are below nrule *)
+Theorem C13_active_sets : forall n x a l, walk_spec n 0 x a = Some l ->
+  List.Forall (fun q => (fst q < n)%nat) l /\ (table_ok n a -> unit_vals l).
+Proof. exact active_sets. Qed.
+Print Assumptions C13_active_sets.
+
+(* fuzzy_gains_defined: the division 1/sum is executed only when `fires`, where the divisor is non-zero; with active
+   sets on both inputs every operator but the bounded product fires; the bounded product fires iff some pair of active
+   memberships sums above 1 (otherwise the repaired code keeps the base gains) *)
+Theorem C13_division_defined : forall s ae aec,
+  unit_vals ae -> unit_vals aec -> ae <> [] -> aec <> [] ->
+  (fires s ae aec -> jsum s ae aec <> 0) /\
+  (opr s <> 3%nat -> fires s ae aec) /\
+  (opr s = 3%nat -> (fires s ae aec <-> exists a b, In a (map snd ae) /\ In b (map snd aec) /\ 1 < a + b)).
+Proof. exact division_defined. Qed.
+Print Assumptions C13_division_defined.
+
+(* a whole a_pid_fuzzy_run / pos / inc / zero step: succeeds, keeps the block size and the set-up, gains as above, and
+   the output is within outmin..outmax *)
+Theorem C13_step : forall s o,
+  sized s -> rules_ok s -> table_ok (nrule s) (me s) -> table_ok (nrule s) (mec s) ->
+  outmin (fpid s) <= outmax (fpid s) ->
+  match step_inputs s o with
+  | None => exists s', fstep RO s o = Ok s' /\ sized s' /\ same_setup s s'
+  | Some (ec, e) =>
+    forall ae aec,
+    walk_spec (nrule s) 0 e (me s) = Some ae -> walk_spec (nrule s) 0 ec (mec s) = Some aec ->
+    (length ae <= nfuzz s)%nat -> (length aec <= nfuzz s)%nat ->
+    exists s', fstep RO s o = Ok s' /\ sized s' /\ same_setup s s' /\
+      gain_spec s (mkp s) ae aec (bkp s) (kp (fpid s')) /\
+      gain_spec s (mki s) ae aec (bki s) (ki (fpid s')) /\
+      gain_spec s (mkd s) ae aec (bkd s) (kd (fpid s')) /\
+      outmin (fpid s) <= out (fpid s') <= outmax (fpid s)
+  end.
+Proof. exact fstep_spec. Qed.
+Print Assumptions C13_step.
+
+(* fuzzy_out_in_limits: after EVERY run/pos/inc step of EVERY history that the model executes (a_pid_fuzzy_zero may be
+   interleaved anywhere), for all operator enumerators, tables and rule bases, the output is within its limits *)
+Theorem C13_fuzzy_out_in_limits : forall ops s o s',
+  outmin (fpid s) <= outmax (fpid s) -> is_control_step o -> frun R13_ops s (ops ++ [o]) = Ok s' ->
+  outmin (fpid s) <= out (fpid s') <= outmax (fpid s).
+Proof. exact fuzzy_out_in_limits_R13. Qed.
+Print Assumptions C13_fuzzy_out_in_limits.
+
+(* every step of every history leaves tables, rule bases, operator, base gains, sizes and limits alone *)
+Theorem C13_history_setup : forall ops s s', frun R13_ops s ops = Ok s' -> same_setup s s'.
+Proof. exact (frun_setup R13_ops). Qed.
+Print Assumptions C13_history_setup.
